@@ -291,6 +291,14 @@ def second_point(item, dic, model, top, labels, tips_arr, w, r_ref, p_ref, Qn, p
     if not abs(total - ref_total) <= RTOL * max(1.0, abs(ref_total)):
         return [("after_update", f"after assigning new branch lengths/heights/rates: {total!r} "
                                  f"vs reference {ref_total!r}")]
+    # the same point on the rescaled path (the one every evaluation takes once an underflow has
+    # been seen): switch the public flag, announce a change, evaluate again
+    model.rescale = True
+    p = dic["tree.blens"] if tree_kind == "unrooted" else dic["clock.rate"]
+    p.tensor = p.tensor.clone()
+    total = float(model())
+    if not abs(total - ref_total) <= RTOL * max(1.0, abs(ref_total)):
+        return [("rescaled", f"same point with rescale=True: {total!r} vs reference {ref_total!r}")]
     return []
 
 
